@@ -8,10 +8,13 @@ Open Scope Z_scope.
 (* For every well-formed schema, every value of declared type t, every protocol and buffer kind and EVERY starting
    context of the protocol object whose pending bool id (if any) is an i16: whenever the emitted encoder succeeds,
    the emitted size pass from the same context returns exactly the number of bytes written and ends in the same
-   context.  For the compact protocol the schema must be outside the decidable class of finding F-04a
-   (no_tdbool: no struct field / union variant whose declared type is a typedef resolving to bool). *)
+   context.  For the compact protocol the TYPE must be outside the decidable class of finding F-04a (no_tdbool_reach S t:
+   among the declarations a value of type t can reach -- typedef targets, container components, struct fields, union
+   variants; the reachable set is computed and CHECKED to be closed -- no struct field / union variant has a declared type
+   that is a typedef resolving to bool).  A typedef-of-bool field elsewhere in the schema does not matter
+   (SizeP.no_tdbool_reach_nonvacuous). *)
 Theorem C04_gen : forall S p k t v,
-  wf_schema S = true -> has_type S t v = true -> (p = PCompact -> no_tdbool S = true) ->
+  wf_schema S = true -> has_type S t v = true -> (p = PCompact -> no_tdbool_reach S t = true) ->
   forall c ss c', pend_ok c -> enc_ty S p k t v c = Ok (ss, c') ->
     size_ty S p t v c = Ok (Z.of_nat (length (flat ss)), c') /\ pend_ok c'.
 Proof. exact size_exact. Qed.
@@ -19,7 +22,7 @@ Print Assumptions C04_gen.
 
 (* entry points on a fresh protocol object *)
 Theorem C04_gen_top : forall S p k t v b,
-  wf_schema S = true -> has_type S t v = true -> (p = PCompact -> no_tdbool S = true) ->
+  wf_schema S = true -> has_type S t v = true -> (p = PCompact -> no_tdbool_reach S t = true) ->
   gen_encode S p k t v = Ok b -> gen_size S p t v = Ok (Z.of_nat (length b)).
 Proof. exact gen_size_exact. Qed.
 Print Assumptions C04_gen_top.
